@@ -154,6 +154,48 @@ func JSONClosed(v interface{}) string {
 	return ""
 }
 
+// JSONShape is the type walk of JSONClosed alone (no marshalling): "" when v is made of nil, bool,
+// finite float64, string, non-nil []interface{} and non-nil map[string]interface{} only.
+func JSONShape(v interface{}) string {
+	if jsonShapeOK(v, 0) {
+		return ""
+	}
+	return jsonWalk(v, "$", 0)
+}
+
+func jsonShapeOK(v interface{}, depth int) bool {
+	if depth > 10000 {
+		return true
+	}
+	switch t := v.(type) {
+	case nil, bool, string:
+		return true
+	case float64:
+		return !math.IsNaN(t) && !math.IsInf(t, 0)
+	case []interface{}:
+		if t == nil {
+			return false
+		}
+		for _, e := range t {
+			if !jsonShapeOK(e, depth+1) {
+				return false
+			}
+		}
+		return true
+	case map[string]interface{}:
+		if t == nil {
+			return false
+		}
+		for _, e := range t {
+			if !jsonShapeOK(e, depth+1) {
+				return false
+			}
+		}
+		return true
+	}
+	return false
+}
+
 func jsonWalk(v interface{}, path string, depth int) string {
 	if depth > 10000 {
 		return ""
